@@ -86,6 +86,14 @@ def build(case, with_mods=True, via="constructor"):
         if "ode_modifier" in kw:
             net.ode_modifier = {k: {"factors": list(v["factors"]), "reactants": [list(x) for x in v["reactants"]]} for k, v in kw["ode_modifier"].items()}
         return net
+    if via == "inplace":
+        # ... and entered one by one into the tables the accessors hand out
+        net = Network(reacs)
+        for k, v in kw.get("rate_modifier", {}).items():
+            net.rate_modifier[k] = v
+        for k, v in kw.get("ode_modifier", {}).items():
+            net.ode_modifier[k] = {"factors": list(v["factors"]), "reactants": [list(x) for x in v["reactants"]]}
+        return net
     return Network(reacs, **kw)
 
 
@@ -156,6 +164,7 @@ def run_case(case):
             f0 = render(build(case, False), "dense", TEMPL)
             f1 = render(build(case, True), "dense", TEMPL)
             f2 = render(build(case, True, "setter"), "dense", TEMPL)
+            f3 = render(build(case, True, "inplace"), "dense", TEMPL)
         o0 = observe(f0)
         o1 = observe(f1)
     except NotC as e:
@@ -169,6 +178,9 @@ def run_case(case):
     if f2 != f1:
         diff = sorted(k for k in f1 if f1[k] != f2.get(k))
         viols.append((f"C13:setter-differs", f"{label}: the modifiers assigned through the setters render {diff} differently from the same modifiers given to the constructor", case))
+    if f3 != f1:
+        diff = sorted(k for k in f1 if f1[k] != f3.get(k))
+        viols.append((f"C13:inplace-differs", f"{label}: the modifiers entered into net.rate_modifier / net.ode_modifier in place render {diff} differently from the same modifiers given to the constructor", case))
     return 1, viols
 
 
